@@ -30,10 +30,14 @@ RgbSpaceOf(n) == CASE n \in {"adobe", "linadobe", "hsv_adobe"} -> "adobe"
                    [] OTHER -> "srgb"            \* srgb, linsrgb, rec709 and their hexcone forms share the BT.709 primaries
 (* does the walk cross a hard-coded RGB <-> XYZ matrix pair (values or hub images)?  Yes when it mixes RGB-family
    nodes with others, or RGB-family nodes of different primaries. *)
-CrossesRgbMatrix(nodes) == (\E i \in DOMAIN nodes : Family(nodes[i]) = "rgb")
-                           /\ ((\E i \in DOMAIN nodes : Family(nodes[i]) # "rgb")
-                               \/ (\E i, j \in DOMAIN nodes : Family(nodes[i]) = "rgb" /\ Family(nodes[j]) = "rgb"
-                                                              /\ RgbSpaceOf(nodes[i]) # RgbSpaceOf(nodes[j])))
+IsLms(n) == n \in {"lmsvk", "lmsbfd"}
+(* the XYZ <-> LMS matrix pairs (von Kries / Hunt-Pointer-Estevez, Bradford) are published to seven decimals as well:
+   the value of an LMS node and its hub image are one such pair apart *)
+CrossesRgbMatrix(nodes) == \/ (\E i \in DOMAIN nodes : Family(nodes[i]) = "rgb")
+                              /\ ((\E i \in DOMAIN nodes : Family(nodes[i]) # "rgb")
+                                  \/ (\E i, j \in DOMAIN nodes : Family(nodes[i]) = "rgb" /\ Family(nodes[j]) = "rgb"
+                                                                 /\ RgbSpaceOf(nodes[i]) # RgbSpaceOf(nodes[j])))
+                           \/ \E i \in DOMAIN nodes : IsLms(nodes[i])
 
 (* relative to the magnitude of the XYZ vector (errors of matrices and of the cube scale with it);
    calibration, relative: f64 crossing 1.3e-7, not crossing 2.6e-15; f32 3.6e-6 *)
